@@ -25,6 +25,7 @@ func TestSim(t *testing.T) {
 	simcore.Main(t, "C04", []simcore.Scenario{
 		{Name: "measure-node-crash", Weight: 1, Run: runMeasureCrash},
 		{Name: "stream-node-crash", Weight: 1, Run: runStreamCrash},
+		{Name: "trace-node-crash", Weight: 1, Run: runTraceCrash},
 	})
 }
 
